@@ -1,6 +1,8 @@
 (* Properties_C02.v -- the C02 theorems and nothing else. *)
 From Coq Require Import NArith ZArith List.
 From Qv Require Import gen.Tables EscapeModel TmplModel TmplRender TmplProofs TparseModel TparseRound TrenderModel TrenderProofs TfullModel TfullSem TfullParseMain TfullMain.
+From Qv Require ExprModel.
+From Qv Require Import ExprBridgeModel ExprBridgeProofs ExprBridgeExt ExprBridgeMain.
 Import ListNotations.
 
 (* The renderer of the implementation layer -- a tag tree with offsets into the
@@ -72,3 +74,28 @@ Theorem c02_parse_print : forall w ast, wf_template ast = true ->
   parse_model w (print_nodes ast) = Ok (tree_of_full ast).
 Proof. exact parse_print_full. Qed.
 Print Assumptions c02_parse_print.
+
+(* ---- bridge to the faithful expression evaluator (coq/ExprModel.v, the model of QExpression evaluation that the
+        C04 correspondence ties to the C++): on the boolean domain check [bridge_dom] (shape: one operand, or
+        a <op> b with op one of + - * == != < > <= >= && ||, operands natural literals, variables or parenthesised
+        pairs; every variable read is an integer in (-2^63, 2^63), a boolean, null, or a string both readers take the
+        same way; no result leaves (-2^63, 2^63)) the evaluator of c02_full and ExprModel.eval_items agree:
+        Some z <-> Ok of the Natural / Integer z, None <-> NoValue.  Outside the domain (real variables, strings
+        such as -3 or 1.5, overflow, / % ^ & |) the two differ and c02_full speaks about q_top only. ---- *)
+Theorem c02_bridge_q_top : forall content root items l d,
+  bridge_dom content root items l = true -> qdepth_list l <= d ->
+  rel (q_top content root items l) (ExprModel.eval_items (benv content root items l) d (to_items content l)).
+Proof. exact bridge_q_top. Qed.
+Print Assumptions c02_bridge_q_top.
+
+(* the expression lists the parser model builds for the fragment of c02_full have the bridge's shape: what is left
+   of the domain check depends on run-time values only *)
+Theorem c02_bridge_shape : forall names env off e, wf_expr names e = true -> q_shape (qexpr_of env off e) = true.
+Proof. exact qexpr_of_shape. Qed.
+Print Assumptions c02_bridge_shape.
+
+(* c02_full read with the faithful evaluator plugged into the renderer wherever the domain check passes *)
+Theorem c02_full_faithful_eval : forall auto w root ast, wf_template ast = true ->
+  render_all_faithful auto w (print_nodes ast) root = ROk (expand auto w root ast).
+Proof. exact ExprBridgeMain.c02_full_faithful_eval. Qed.
+Print Assumptions c02_full_faithful_eval.
